@@ -235,19 +235,145 @@ def check_bisect(ctx, w):
         ctx.ob('J-BISECT', f.construct, 'probe guarded (i >= 1 / non-empty)', ok, msg='[i-1] probe of a possibly empty key list is not guarded',
                sample='%s: bisect_right probe guarded' % f.construct)
     ctx.ob('J-BISECT', 'package', 'bisect sites found', len(sites) >= 5, got=len(sites))
-    # _get_cached_DIE: hit test compares keys[i-1] with the key, values from the parallel list at i-1
-    for mod, cls in (('dwarf/compileunit.py', 'CompileUnit'), ('dwarf/typeunit.py', 'TypeUnit')):
-        f = w.model.func(mod, cls + '._get_cached_DIE')
-        src = ast.unparse(f.node)
-        ok = 'i = bisect_right(self._diemap, offset)' in src and 'if offset == self._diemap[i - 1]:' in src and 'die = self._dielist[i - 1]' in src and \
-            'self._dielist.insert(i, die)' in src and 'self._diemap.insert(i, offset)' in src and 'top_die_stream = self.get_top_DIE().stream' in src
-        ctx.ob('J-BISECT', f.construct, 'hit: keys[i-1] == key -> values[i-1]; miss: parse and insert both at i', ok,
-               msg='random access and sequential iteration must meet in this one cache/constructor site')
-        g = w.model.func(mod, cls + '.get_top_DIE')
-        src = ast.unparse(g.node)
-        ok = 'if self._diemap:\n        return self._dielist[0]' in src.replace('            ', '        ') and 'self._dielist.insert(0, top)' in src and \
-            'self._diemap.insert(0, self.%s)' % ('cu_die_offset' if cls == 'CompileUnit' else 'tu_die_offset') in src
-        ctx.ob('J-BISECT', g.construct, 'top DIE cached at index 0 with its offset', ok)
+    # paired bisect caches (PAIRS): hit test, guarded probe, miss inserts, and the "top DIE sits at index 0" invariant
+    n_pair_sites = 0
+    for mod, cls, keys, vals in PAIRS:
+        ci = w.model.cls(cls, mod)
+        for mname, m in sorted(ci.methods.items()):
+            for st in walk_no_nested(m.node):
+                if isinstance(st, ast.Assign) and isinstance(st.value, ast.Call) and isinstance(st.value.func, ast.Name) and \
+                        st.value.func.id.startswith('bisect') and len(st.value.args) == 2 and ast.unparse(st.value.args[0]) == 'self.' + keys and \
+                        isinstance(st.targets[0], ast.Name):
+                    n_pair_sites += 1
+                    _pair_site(ctx, w, ci, m, st, keys, vals)
+        top = ci.find_method('get_top_DIE')
+        if top is not None and top.cls is ci:
+            _top_invariant(ctx, w, ci, top, keys, vals)
+    ctx.ob('J-BISECT', 'package', 'paired bisect cache sites found', n_pair_sites >= 4, got=n_pair_sites)
+
+
+def _conjuncts(test, pol):
+    """atomic (test, polarity) facts implied by a branch outcome: a true `a and b` gives a, b; a false `a or b` gives !a, !b"""
+    if isinstance(test, ast.BoolOp) and ((isinstance(test.op, ast.And) and pol) or (isinstance(test.op, ast.Or) and not pol)):
+        out = []
+        for v in test.values:
+            out += _conjuncts(v, pol)
+        return out
+    if isinstance(test, ast.UnaryOp) and isinstance(test.op, ast.Not):
+        return _conjuncts(test.operand, not pol)
+    return [(test, pol)]
+
+
+def _pair_site(ctx, w, ci, m, st, keys, vals):
+    ivar = st.targets[0].id
+    key = ast.unparse(st.value.args[1])
+    env = expr.FEnv(m.node, inline=False)
+    probe = 'self.%s[%s - 1]' % (keys, ivar)
+    hit_val = 'self.%s[%s - 1]' % (vals, ivar)
+    eq = expr.spec_cond('%s == %s' % (key, probe))
+    pos = (expr.spec_cond('%s >= 1' % ivar), expr.spec_cond('%s > 0' % ivar))
+    hit_paths = miss_paths = 0
+    ok_hit = ok_guard = ok_miss = True
+    why = None
+    for p in paths.func_paths(m.node):
+        facts = []          # (cond_str, polarity) in order
+        seen_site = False
+        top_called = False
+        for ev in p.events + [('end',) + tuple(p.end)]:
+            node = ev[1] if len(ev) > 1 and isinstance(ev[1], ast.AST) else None
+            if node is st:
+                seen_site = True
+                continue
+            if node is not None and not seen_site:
+                if any(isinstance(c, ast.Call) and ast.unparse(c.func) == 'self.get_top_DIE' for c in ast.walk(node)):
+                    top_called = True
+                continue
+            if not seen_site or node is None:
+                continue
+            if ev[0] == 'cond':
+                # evaluation order inside a conjunction: the probe must follow the guard
+                conj = _conjuncts(node, ev[2]) if ev[2] or isinstance(node, ast.BoolOp) else [(node, ev[2])]
+                atoms = node.values if isinstance(node, ast.BoolOp) and isinstance(node.op, ast.And) else [node]
+                guarded = top_called or any(c in pos and pl for c, pl in facts)
+                for a in atoms:
+                    if probe in ast.unparse(a) and not guarded:
+                        ok_guard = False
+                        why = 'probe %s evaluated without %s >= 1 / get_top_DIE()' % (probe, ivar)
+                    if expr.cond_str(a, env) in pos:
+                        guarded = True
+                for t, pl in conj:
+                    facts.append((expr.cond_str(t, env), pl))
+                continue
+            src = ast.unparse(node)
+            if hit_val in src:
+                hit_paths += 1
+                if (eq, True) not in facts:
+                    ok_hit = False
+                    why = 'value %s used without the test %s == %s' % (hit_val, key, probe)
+            ins_k = [c for c in ast.walk(node) if isinstance(c, ast.Call) and ast.unparse(c.func) == 'self.%s.insert' % keys]
+            for c in ins_k:
+                miss_paths += 1
+                if (eq, True) in facts or [ast.unparse(a) for a in c.args] != [ivar, key]:
+                    ok_miss = False
+                    why = 'insert(%s) on a hit path or not at (%s, %s)' % (', '.join(ast.unparse(a) for a in c.args), ivar, key)
+    flavour = st.value.func.id
+    if hit_paths == 0 and miss_paths == 0:
+        # the index only selects a start key (get_CU_containing): the probe guard is the whole obligation
+        ctx.ob('J-BISECT', m.construct, 'start-key probe guarded', ok_guard and flavour == 'bisect_right', got=why, line=st.lineno,
+               msg='[i-1] probe of a possibly empty key list is not guarded')
+        return
+    ctx.ob('J-BISECT', m.construct, 'paired cache: %s[i-1] returned only when the key matches' % vals, ok_hit and hit_paths > 0 and flavour == 'bisect_right',
+           got=why or (hit_paths, flavour), line=st.lineno, msg='random access and sequential iteration must meet in this one cache site: a hit returns the cached object '
+           'exactly when keys[i-1] equals the requested key', sample='%s: hit iff %s == %s' % (m.construct, key, probe))
+    ctx.ob('J-BISECT', m.construct, 'paired cache: probe guarded', ok_guard, got=why, line=st.lineno, msg='[i-1] probe of a possibly empty key list is not guarded')
+    ctx.ob('J-BISECT', m.construct, 'paired cache: miss inserts the key at the bisect index', ok_miss and miss_paths > 0, got=why or miss_paths, line=st.lineno,
+           msg='a miss must insert the new object at the bisect index with exactly the requested key, and never on a hit path')
+
+
+def _top_invariant(ctx, w, ci, top, keys, vals):
+    """get_top_DIE answers `self.<vals>[0]` whenever the cache is non-empty: so every other insert must come after a
+    get_top_DIE() call on its path (the top DIE has the smallest offset of the unit, bisect keeps it at index 0)."""
+    env = expr.FEnv(top.node, inline=False)
+    off = [a for a in ('cu_die_offset', 'tu_die_offset') if ('self.' + a) in ast.unparse(top.node)]
+    cached = fresh = 0
+    ok = True
+    why = None
+    for p in paths.func_paths(top.node):
+        facts = [(expr.cond_str(t, env), pl) for t, pl in p.conds()]
+        ins = [(ast.unparse(c.func), [ast.unparse(a) for a in c.args]) for s in p.stmts() for c in ast.walk(s)
+               if isinstance(c, ast.Call) and isinstance(c.func, ast.Attribute) and c.func.attr == 'insert']
+        if ('T(_%s)' % keys.lstrip('_'), True) in facts or ('T(%s)' % keys, True) in facts:
+            cached += 1
+            if p.end[0] != 'return' or ast.unparse(p.end[1]) != 'self.%s[0]' % vals or ins:
+                ok = False
+                why = 'cached path does not return %s[0]' % vals
+        elif p.end[0] == 'return':
+            fresh += 1
+            kk = [a for f_, a in ins if f_ == 'self.%s.insert' % keys]
+            vv = [a for f_, a in ins if f_ == 'self.%s.insert' % vals]
+            if len(kk) != 1 or len(vv) != 1 or kk[0][0] != '0' or vv[0][0] != '0' or not off or kk[0][1] != 'self.' + off[0] or \
+                    ast.unparse(p.end[1]) != vv[0][1]:
+                ok = False
+                why = ('fresh path inserts', kk, vv)
+    ctx.ob('J-BISECT', top.construct, 'top DIE cached at index 0 with its offset', ok and cached >= 1 and fresh >= 1, got=why or (cached, fresh), line=top.node.lineno,
+           msg='get_top_DIE must return the index-0 entry when the cache is non-empty and otherwise insert the parsed top DIE at index 0 under its own offset')
+    n = 0
+    for mname, m in sorted(ci.methods.items()):
+        if m is top:
+            continue
+        for c in walk_no_nested(m.node):
+            if isinstance(c, ast.Call) and ast.unparse(c.func) in ('self.%s.insert' % keys, 'self.%s.append' % keys):
+                n += 1
+                dom = True
+                for p in paths.paths_reaching(m.node, c):
+                    if not any(isinstance(x, ast.Call) and ast.unparse(x.func) == 'self.get_top_DIE' for e in p.events if len(e) > 1 and isinstance(e[1], ast.AST)
+                               for x in ast.walk(e[1])):
+                        dom = False
+                ctx.ob('J-BISECT', m.construct, 'insert into %s dominated by get_top_DIE()' % keys, dom, line=c.lineno,
+                       msg='get_top_DIE() answers %s[0] whenever the cache is non-empty: a random access that caches another DIE first makes every later '
+                           'top-DIE query (iteration, parent links, line programs) start from the wrong DIE' % vals,
+                       sample='%s: every path to %s.insert passes get_top_DIE()' % (m.construct, keys))
+    ctx.ob('J-BISECT', ci.name, 'random-access insert sites found', n >= 1, got=n)
 
 
 def check_keys(ctx, w):
